@@ -48,6 +48,7 @@ PowLaws ==
   /\ \A e \in 0..B : PowMod(a, e, n) = PowModSlow(a, e, n)
   /\ \A e \in 0..4 : Abs(a) <= 12 => PowMod(a, e, n) = Pow(a, e) % n
   /\ IsPrime(n) <=> IsPrimeSlow(n)
+  /\ n >= 2 => SmallestFactor(n) = SetMin({d \in 2..n : n % d = 0})
   /\ IsPrime(n) /\ a % n # 0 => PowMod(a, n - 1, n) = 1 % n                  \* Fermat
 
 JacobiLaws ==
